@@ -42,8 +42,18 @@ RULE = ('valid Interest / Data / LpPacket / certificate wires built by the libra
         'Name, a 5..400-deep nest or several kB of unknown element inserted, and 12% get a second edit; valid wires include '
         'several-kB payloads and every LpPacket header field; plus grammar-generated packets (each recognised element of the '
         'field list present with p=0.6 in order, legal and illegal integer widths, then one deviation: swap / repeat / unknown '
-        'element), uniformly random byte strings and random TLV-shaped sequences up to 2.5 kB. The strict reading of an '
-        'LpPacket uses the NDNLPv2 field table written into the harness, not the one in the source. The same wire goes to '
+        'element), uniformly random byte strings and random TLV-shaped sequences up to 2.5 kB; plus packets of all four kinds '
+        'written element by element from the format documents, never by the library\'s encoder (13%): every optional element of '
+        'the specification tables in specification order (ForwardingHint with several names, HopLimit, FinalBlockId of odd '
+        'component types, KeyDigest key locators, SignatureNonce / SignatureTime / SignatureSeqNum, a certificate\'s '
+        'ValidityPeriod followed by AdditionalDescription with entries, all LpPacket headers together), integers also in '
+        'longer than shortest legal widths, unknown non-critical elements (and unknown critical ones where the format lets them '
+        'pass) before / between / after them, a correct ParametersSha256Digest; decoded as is - then the extracted fields must '
+        'also equal the values written in - or after one mutation. The strict reading the ORACLE judges by uses the field '
+        'tables of all four packets written into the harness from NDN Packet Format 0.3, NDN Certificate Format 2.0 and NDNLPv2 '
+        '(order, Type numbers, which sub-model lets unknown critical elements pass), not the ones in the source, and fields '
+        'are compared by Type number; what parse_interest / parse_data hand to the caller (InterestParam, MetaInfo, content, '
+        'SignaturePtrs) is compared with that reading too. The same wire goes to '
         'the real decoder, to the Lean decoder model, to an independent strict reader (Python) and to the Lean strict decoder; '
         'decoder model = code and Lean strict decoder = Python strict reader (accept / reject, fields, kind of overrun) are '
         'compared on every wire, including the wires flagged as known finding. non-trivial = the mutated wire is accepted '
@@ -356,6 +366,280 @@ SPEC_LP = [('U', 0x52, None), ('U', 0x53, None), ('Y', 0x62, False), ('M', 0x320
 
 ODD_COMPS = [b'\x08\x00', b'\x00\x01a', b'\xfe\x00\x01\x00\x00\x01b', b'\xfd\xff\xff\x01c', b'\x20\x00', b'\xfd\x00\x08\x01e']
 
+# Field tables of the other three packets, written from the format documents (NDN Packet Format 0.3: Interest, Data,
+# MetaInfo, SignatureInfo / InterestSignatureInfo, KeyLocator; NDN Certificate Format 2.0: ValidityPeriod and the
+# AdditionalDescription extension inside the certificate's SignatureInfo, in that order) - NOT read from the source.
+# The oracle's strict reading uses THESE tables; the source's field order / Type numbers are what is being judged.
+# Notes: (1) SignatureNonce is an octet string in the format (1*OCTET); the library reads it as an integer, which is
+# compared by value (_diff_val). (2) The format defines SignatureNonce / SignatureTime / SignatureSeqNum for an Interest's
+# SignatureInfo only; python-ndn uses one SignatureInfo class for both packets, and a Data carrying these (non-critical)
+# elements is outside the Data format - the tables list them for Data too (reported, not judged).
+_SPEC_KL = [('N', 7), ('Y', 0x1d, False)]
+_SPEC_SIG = [('U', 0x1b, None), ('M', 0x1c, False, _SPEC_KL, None), ('Y', 0x26, False), ('U', 0x28, None), ('U', 0x2a, None)]
+_SPEC_META = ('M', 0x14, False, [('U', 0x18, None), ('U', 0x19, None), ('Y', 0x1a, False)], None)
+_SPEC_VALIDITY = ('M', 0xfd, False, [('Y', 0xfe, False), ('Y', 0xff, False)], None)
+_SPEC_ADD_DESC = ('M', 0x102, False, [('R', ('M', 0x200, False, [('Y', 0x201, False), ('Y', 0x202, False)], None))], None)
+SPEC_INTEREST = [('N', 7), ('B', 0x21), ('B', 0x12), ('M', 0x1e, False, [('R', ('N', 7))], None), ('U', 0x0a, 4),
+                 ('U', 0x0c, None), ('U', 0x22, 1), ('Y', 0x24, False), ('M', 0x2c, False, _SPEC_SIG, None), ('Y', 0x2e, False)]
+SPEC_DATA = [('N', 7), _SPEC_META, ('Y', 0x15, False), ('M', 0x16, True, _SPEC_SIG, None), ('Y', 0x17, False)]
+SPEC_CERT = [('N', 7), _SPEC_META, ('Y', 0x15, False),
+             ('M', 0x16, True, _SPEC_SIG + [_SPEC_VALIDITY, _SPEC_ADD_DESC], None), ('Y', 0x17, False)]
+SPEC = {'interest': SPEC_INTEREST, 'data': SPEC_DATA, 'lp': SPEC_LP, 'cert': SPEC_CERT}
+
+
+def _keyed(fs, vals):
+    """value tuples of a field list -> {Type: value}: what was extracted, independent of the position a field has in
+    whichever table produced it (absent fields and empty repetitions are left out)"""
+    out = {}
+    for s, v in zip(fs, vals):
+        if s[0] == 'K' or v is None:
+            continue
+        if s[0] == 'R':
+            if v[1]:
+                out[str(s[1][1])] = ['l', [_keyed_val(s[1], x) for x in v[1]]]
+            continue
+        if s[0] == 'P':
+            continue
+        out[str(s[1])] = _keyed_val(s, v)
+    return out
+
+
+def _keyed_val(s, v):
+    k = v[0]
+    if k == 'u':
+        return ['u', v[1]]
+    if k == 'b':
+        return ['b']
+    if k == 'y':
+        return ['y', bytes(v[1]).hex()]
+    if k == 'n':
+        return ['n', [bytes(c).hex() for c in v[1]]]
+    if k == 'm':
+        return ['m', _keyed(s[3], v[1])]
+    raise ValueError(v)
+
+
+def _diff(fs, a, b, path=''):
+    """first field of the specification table `fs` on which the reference reading `a` and the extracted fields `b`
+    (both in _keyed form) differ, or None. Fields the table does not list are not compared."""
+    for s in fs:
+        if s[0] in ('K', 'P'):
+            continue
+        e = s[1] if s[0] == 'R' else s
+        k = str(e[1])
+        x, y = a.get(k), b.get(k)
+        where = f'{path}{e[1]:#x}'
+        if s[0] == 'R':
+            xs = x[1] if x and x[0] == 'l' else [] if x is None else None
+            ys = y[1] if y and y[0] == 'l' else [] if y is None else None
+            if xs is None or ys is None or len(xs) != len(ys):
+                return where + ' (number of repetitions)'
+            for i, (p, q) in enumerate(zip(xs, ys)):
+                d = _diff_val(e, p, q, f'{where}[{i}]')
+                if d:
+                    return d
+            continue
+        if x is None and y is None:
+            continue
+        if x is None:
+            return where + ' (not in the packet, but extracted)'
+        if y is None:
+            return where + ' (in the packet, not extracted)'
+        d = _diff_val(e, x, y, where)
+        if d:
+            return d
+    return None
+
+
+def _diff_val(e, x, y, where):
+    if e[0] == 'M':
+        if x[0] != 'm' or y[0] != 'm':
+            return where + ' (kind)'
+        return _diff(e[3], x[1], y[1], where + '/')
+    if x == y:
+        return None
+    if x[0] == 'y' and y[0] == 'u' and int.from_bytes(bytes.fromhex(x[1]), 'big') == y[1]:
+        return None           # an octet-string field the library reads as an integer: same value
+    return where + ' (value)'
+
+
+def _api_keyed(kind, res):
+    """what parse_interest / parse_data hand to the caller (name, InterestParam / MetaInfo, content, SignaturePtrs)"""
+    from ndn.encoding import Name
+    name, par, content, sp = res
+    if isinstance(name, str):
+        return None
+
+    def nm(n):
+        return ['n', [bytes(c).hex() for c in Name.normalize(n)]]
+
+    def inst(x):
+        fs = T.class_schema(type(x))
+        return ['m', _keyed(fs, T.from_instance(fs, x))]
+    kd = {'7': nm(name)}
+    if kind == 'interest':
+        if par.can_be_prefix:
+            kd['33'] = ['b']
+        if par.must_be_fresh:
+            kd['18'] = ['b']
+        if par.forwarding_hint:
+            kd['30'] = ['m', {'7': ['l', [nm(n) for n in par.forwarding_hint]]}]
+        for k, v in (('10', par.nonce), ('12', par.lifetime), ('34', par.hop_limit)):
+            if v is not None:
+                kd[k] = ['u', int(v)]
+        ct, si, sv = '36', '44', '46'
+    else:
+        kd['20'] = inst(par)
+        ct, si, sv = '21', '22', '23'
+    if content is not None:
+        kd[ct] = ['y', bytes(content).hex()]
+    if sp.signature_info is not None:
+        kd[si] = inst(sp.signature_info)
+    if sp.signature_value_buf is not None:
+        kd[sv] = ['y', bytes(sp.signature_value_buf).hex()]
+    return kd
+
+
+def _api_reference(kind, ref, api):
+    """the strict reading and the tuple API made comparable: parse_interest gives the delegation names (an empty
+    ForwardingHint looks like none); parse_data substitutes a default MetaInfo object when the packet has none (its
+    contents are then not a field of the packet, and not compared)"""
+    ref, api = dict(ref), dict(api)
+    if kind == 'interest' and '30' in ref and not ref['30'][1].get('7'):
+        del ref['30']
+    if kind == 'data' and '20' not in ref:
+        api.pop('20', None)
+    return ref, api
+
+
+# ------------------------------------------------------------ packets built by hand from the format documents
+UNK_NONCRIT = [0xf0, 0xf2, 0x3e8, 0x7d00, 0x10000]      # even, above 31, in none of the tables
+UNK_CRIT = [0xf1, 0x3e9, 0x105]                         # odd: only where the format lets unknown critical elements pass
+
+
+def _spec_bytes(rng, typ):
+    import hashlib
+    if typ == 0x1a:      # FinalBlockId holds one name component (any component type)
+        return rng.choice([T.random_comp(rng), b'\x08\x00', b'\x32\x03\x01\x02\x03', b'\xfd\xff\xfe\x02ab', b'\x3a\x01\x07',
+                           b'\x01\x20' + hashlib.sha256(b'x').digest(), b'\x36\x08' + bytes(8)])
+    if typ in (0xfe, 0xff):
+        return ('%04d%02d%02dT%02d%02d%02d' % (rng.randint(1970, 2099), rng.randint(1, 12), rng.randint(1, 28),
+                                               rng.randint(0, 23), rng.randint(0, 59), rng.randint(0, 59))).encode()
+    if typ == 0x1d:
+        return bytes(rng.getrandbits(8) for _ in range(32))
+    if typ == 0x26:
+        return bytes(rng.getrandbits(8) for _ in range(rng.choice([1, 2, 4, 8, 8, 8, 8, 3, 16])))
+    if typ in (0x201, 0x202):
+        return rng.choice([b'organization', b'email', b'admin@example.org', b'', 'Université'.encode(), T.random_bytes(rng)])
+    if typ in (0x17, 0x2e):
+        return bytes(rng.getrandbits(8) for _ in range(rng.choice([0, 32, 64, 71])))
+    return T.random_bytes(rng)
+
+
+def _spec_elem(rng, s, p):
+    """one element of the table entry `s` as (bytes, value in _keyed form)"""
+    k, t = s[0], s[1]
+    if k == 'U':
+        v = rng.choice(T.UINT_EDGES) if rng.random() < 0.6 else rng.getrandbits(rng.choice([3, 8, 16, 32, 64]))
+        if s[2] is not None:
+            w = s[2]
+            v %= 256 ** w
+        else:
+            fit = [w for w in (1, 2, 4, 8) if v < 256 ** w]
+            w = fit[0] if rng.random() < 0.8 else rng.choice(fit)      # a NonNegativeInteger need not be the shortest
+        return T.tl(t) + T.tl(w) + v.to_bytes(w, 'big'), ['u', v]
+    if k == 'B':
+        return T.tl(t) + b'\x00', ['b']
+    if k == 'Y':
+        pl = _spec_bytes(rng, t)
+        return T.tl(t) + T.tl(len(pl)) + pl, ['y', pl.hex()]
+    if k == 'N':
+        comps = [T.random_comp(rng) for _ in range(rng.choice([0, 1, 2, 3, 5]))]
+        body = b''.join(comps)
+        return T.tl(t) + T.tl(len(body)) + body, ['n', [c.hex() for c in comps]]
+    if k == 'M':
+        fs = s[3]
+        if t == 0x1c:       # KeyLocator = Name / KeyDigest
+            fs = [rng.choice(fs)]
+        chunks, kd = _spec_chunks(rng, fs, s[2], 1.0 if t == 0x1c else p)
+        body = b''.join(c[1] for c in chunks)
+        return T.tl(t) + T.tl(len(body)) + body, ['m', kd]
+    raise ValueError(s)
+
+
+def _spec_chunks(rng, fs, ic, p, unk=0.15):
+    """the elements of one level in the order of the table, each optional one present with probability p, with unknown
+    elements a receiver has to skip before / between / after them; returns ([[Type | None, bytes]], keyed values)"""
+    chunks, kd = [], {}
+
+    def unknown():
+        if rng.random() < unk:
+            t = rng.choice(UNK_CRIT) if ic and rng.random() < 0.4 else rng.choice(UNK_NONCRIT)
+            pl = bytes(rng.getrandbits(8) for _ in range(rng.choice([0, 1, 4, 9])))
+            chunks.append([None, T.tl(t) + T.tl(len(pl)) + pl])
+    for i, s in enumerate(fs):
+        unknown()
+        if s[0] == 'R':
+            items = []
+            for _ in range(rng.choice([0, 1, 2, 3]) if rng.random() < max(p, 0.5) else 0):
+                b, v = _spec_elem(rng, s[1], p)
+                chunks.append([s[1][1], b])
+                items.append(v)
+                unknown()
+            if items:
+                kd[str(s[1][1])] = ['l', items]
+            continue
+        if not (s[0] == 'N' and i == 0) and rng.random() >= p:
+            continue
+        b, v = _spec_elem(rng, s, p)
+        chunks.append([s[1], b])
+        kd[str(s[1])] = v
+    unknown()
+    return chunks, kd
+
+
+def _spec_wire(rng, kind):
+    """a packet of this kind written element by element from the specification table (never by the library's encoder):
+    (wire, the values written into it)"""
+    import hashlib
+    p = rng.choice([1.0, 1.0, 0.85, 0.6])
+    fs = SPEC[kind]
+    chunks, kd = _spec_chunks(rng, fs, kind == 'lp', p)
+
+    def drop(t):
+        chunks[:] = [c for c in chunks if c[0] != t]
+        kd.pop(str(t), None)
+    if kind == 'interest':
+        types = [c[0] for c in chunks]
+        if 0x24 not in types:
+            drop(0x2c), drop(0x2e)       # a signed Interest has ApplicationParameters
+        else:
+            # ParametersSha256DigestComponent: SHA-256 over everything from ApplicationParameters to the end
+            dg = hashlib.sha256(b''.join(c[1] for c in chunks[types.index(0x24):])).digest()
+            comps = [bytes.fromhex(c) for c in kd['7'][1]]
+            comps.insert(rng.choice([len(comps), len(comps), rng.randint(0, len(comps))]), b'\x02\x20' + dg)
+            body = b''.join(comps)
+            chunks[types.index(7)][1] = b'\x07' + T.tl(len(body)) + body
+            kd['7'] = ['n', [c.hex() for c in comps]]
+    if kind == 'lp':
+        types = [c[0] for c in chunks]
+        if 0x344 in types and 0x348 in types:
+            drop(rng.choice([0x344, 0x348]))        # see ACK_TXSEQ_NOTE
+        if rng.random() < 0.9:
+            drop(0x52), drop(0x53)                  # fragmentation headers: refused by the library by design
+        if '80' in kd and rng.random() < 0.8:
+            inner = _spec_wire(rng, rng.choice(['interest', 'data']))[0]
+            for c in chunks:
+                if c[0] == 0x50:
+                    c[1] = b'\x50' + T.tl(len(inner)) + inner
+            kd['80'] = ['y', inner.hex()]
+    body = b''.join(c[1] for c in chunks)
+    return T.tl(_OUTER[kind]) + T.tl(len(body)) + body, kd
+
+
+_OUTER = {'interest': 5, 'data': 6, 'lp': 100, 'cert': 6}
+
+
 
 def _gram_elem(rng, s):
     k = s[0]
@@ -432,9 +716,28 @@ def _random_wire(rng, kind):
 
 
 def cases(rng, tier):
-    n = 4000 if tier == 'quick' else 60000
+    n = 4600 if tier == 'quick' else 66000
     for _ in range(n):
         r = rng.random()
+        if r < 0.13:
+            # hand-built from the format documents, every optional element in specification order; as is (with the values
+            # written into it as a second reference) or after one mutation
+            kind = rng.choice(['interest', 'data', 'lp', 'cert', 'cert'])
+            wire, kd = _spec_wire(rng, kind)
+            case = {'kind': kind, 'wire': wire.hex(), 'mut': 'spec'}
+            if rng.random() < 0.3:
+                try:
+                    wire, m2 = _mutate(rng, wire)
+                except Exception:     # noqa
+                    m2 = 'none'
+                if m2 != 'none':
+                    yield {'kind': kind, 'wire': wire.hex(), 'mut': 'spec+' + m2}
+                    continue
+            import json
+            case['expect'] = json.dumps(kd, sort_keys=True)
+            yield case
+            continue
+        r = (r - 0.13) / 0.87
         if r < 0.72:
             kind = rng.choice(['interest', 'interest', 'data', 'data', 'lp', 'lp', 'cert'])
             try:
@@ -509,12 +812,16 @@ def run_impl(case):
         res = K['api'](wire)
         from ndn.encoding.tlv_var import parse_and_check_tl
         inst = res if case['kind'] in ('lp', 'cert') else K['cls'].parse(parse_and_check_tl(wire, K['outer']))
-        out['dec'] = ['ok', T.values_text(T.from_instance(fs, inst))]
+        vals = T.from_instance(fs, inst)
+        out['dec'] = ['ok', T.values_text(vals)]
+        dec_k = _keyed(fs, vals)
+        api_k = None
         if case['kind'] in ('interest', 'data'):
             from ndn.encoding import Name
             api_name = res[0]
             out['api_name'] = T.value_text(('n', [bytes(c) for c in Name.normalize(api_name)])) \
                 if not isinstance(api_name, str) else 'STR:' + api_name
+            api_k = _api_keyed(case['kind'], res)
     except Exception as e:   # noqa
         out['dec'] = ['err', _exc(e)]
     try:
@@ -528,6 +835,28 @@ def run_impl(case):
         out['strict'] = ['ok', T.values_text(vals)]
     except S.Reject as r:
         out['strict'] = ['rej', str(r)]
+    # THE reading the oracle judges by: the field tables written from the format documents (SPEC), whatever order, Type
+    # numbers or flags the source declares ('strict' above follows the source's table and is what the Lean strict decoder
+    # is compared with)
+    spec_fs = SPEC[case['kind']]
+    try:
+        vals = S.strict_packet(spec_fs, wire, K['outer'], K['ic'], K['need_name'])
+        for s, v in zip(spec_fs, vals):
+            if _typ(s) in K['forbid'] and v is not None:
+                raise S.Reject('fragmented envelope')
+        ref = _keyed(spec_fs, vals)
+        out['spec'] = ['ok', T.values_text(vals)]
+    except S.Reject as r:
+        ref = None
+        out['spec'] = ['rej', str(r)]
+    if out['dec'][0] == 'ok':
+        if ref is not None:
+            out['diff'] = _diff(spec_fs, ref, dec_k)
+            if api_k is not None:
+                out['api_diff'] = _diff(spec_fs, *_api_reference(case['kind'], ref, api_k))
+        if case.get('expect'):
+            import json
+            out['expect_diff'] = _diff(spec_fs, json.loads(case['expect']), dec_k)
     return out
 
 
@@ -589,15 +918,22 @@ def impl_obs(impl):
 
 # ------------------------------------------------------------------------------------- oracle
 def oracle(case, impl):
-    d, s = impl['dec'], impl['strict']
+    d, s = impl['dec'], impl.get('spec', impl['strict'])
     if d[0] == 'err':
         if d[1] not in DOCUMENTED:
             return f'rejected with an undocumented error class {d[1]}'
         return None
     if s[0] == 'rej':
         return _tie_on_flagged(case, impl) or f'accepted a packet the strict reading rejects: {s[1]}'
-    if d[1] != s[1]:
-        return 'accepted, but an extracted field differs from the strict reading'
+    if 'spec' not in impl:
+        if d[1] != s[1]:
+            return 'accepted, but an extracted field differs from the strict reading'
+    elif impl.get('diff'):
+        return f"accepted, but an extracted field differs from the strict reading: {impl['diff']}"
+    if impl.get('expect_diff'):
+        return f"accepted a hand-built packet, but an extracted field differs from what was written into it: {impl['expect_diff']}"
+    if impl.get('api_diff'):
+        return f"accepted, but a field handed out by parse_{case['kind']} differs from the strict reading: {impl['api_diff']}"
     if 'api_name' in impl and impl['api_name'].startswith('STR:'):
         return 'accepted a packet without Name (a str default was returned as name)'
     return None
@@ -629,8 +965,15 @@ def nontrivial(case, impl):
 
 def tags(case, impl):
     d, s = impl['dec'], impl['strict']
-    return ['kind:' + case['kind'], 'mut:' + case['mut'].split('+')[0], 'dec:' + (d[0] if d[0] == 'ok' else d[1]),
-            'strict:' + (s[0] if s[0] == 'ok' else s[1][:30]), 'len:%d' % (len(case['wire']) // 200 * 100)]
+    t = ['kind:' + case['kind'], 'mut:' + case['mut'].split('+')[0], 'dec:' + (d[0] if d[0] == 'ok' else d[1]),
+         'strict:' + (s[0] if s[0] == 'ok' else s[1][:30]), 'len:%d' % (len(case['wire']) // 200 * 100)]
+    if case['mut'] == 'spec':
+        t.append('hand-built:%s:%s' % (case['kind'], 'accepted' if d[0] == 'ok' else d[1]))
+        if d[0] == 'ok':
+            import json
+            for k in json.loads(case['expect']).get({'interest': '44', 'lp': '-'}.get(case['kind'], '22'), [0, {}])[1]:
+                t.append('hand-built:%s:signature-info-element:%#x:extracted' % (case['kind'], int(k)))
+    return t
 
 
 def finding_key(case, impl, why):
